@@ -6,7 +6,8 @@
 From NV Require Import Model.Base Model.Diag Model.Lexer Model.Errors Model.Cli Spec.CConst Spec.Conforming
   Gen.ErrOrder Gen.MainExit Gen.Emitters Gen.HeaderRe Gen.HeaderSM Model.Header Model.GuardBase Gen.Guard Model.Guard
   Proofs.EmittersProofs Proofs.ConformingProofs Proofs.ConformingChecks Proofs.ConformingCounters Proofs.ConformingSpacing
-  Proofs.ConformingControl Proofs.ConformingTraced Proofs.ConformingNames.
+  Proofs.ConformingControl Proofs.ConformingTraced Proofs.ConformingNames Proofs.ConformingPreproc.
+From NV Require Import Model.PreprocBase Gen.PreprocChecks.
 From NV Require Import Model.NameBase Gen.NameChecks Model.ScopeBase Gen.ScopeOps.
 From NV Require Import Model.RuleChecks Gen.RuleChecks Gen.MoreChecks Proofs.RuleChecksProofs Proofs.RuleChecksProofs2
   Proofs.MoreChecksProofs.
@@ -30,13 +31,17 @@ Qed.
 (* the codes of the checks proved silent as a whole that ONE file only can emit (Gen/Emitters.v).  LINE_TOO_LONG is also
    emitted by check_comment_line_len.py, TOO_MANY_INSTR by check_assignation.py and SPACE_EMPTY_LINE by check_spacing.py:
    FORBIDDEN_CHAR_NAME fits the f-string pattern FORBIDDEN_<type> of check_utype_declaration.py and TOO_MANY_LINES is shared by
-   check_brace.py and check_line_count.py: for those five codes only the named check is proved silent, not the code *)
+   check_brace.py and check_line_count.py, TAB_REPLACE_SPACE by check_preprocessor_indent.py, check_utype_declaration.py and
+   check_variable_indent.py: for those six codes only the named check is proved silent, not the code *)
 Definition silent_check_codes : list (string * string) :=
   [("norminette/rules/check_ternary.py", "TERNARY_FBIDDEN");
    ("norminette/rules/check_label.py", "GOTO_FBIDDEN"); ("norminette/rules/check_label.py", "LABEL_FBIDDEN");
    ("norminette/rules/check_functions_count.py", "TOO_MANY_FUNCS");
    ("norminette/rules/check_identifier_name.py", "WRONG_SCOPE_FCT");
    ("norminette/rules/check_comment.py", "WRONG_SCOPE_COMMENT"); ("norminette/rules/check_comment.py", "COMMENT_ON_INSTR");
+   ("norminette/rules/check_preprocessor_indent.py", "PREPROC_START_LINE"); ("norminette/rules/check_preprocessor_indent.py", "PREPOC_ONLY_GLOBAL");
+   ("norminette/rules/check_preprocessor_indent.py", "TOO_MANY_WS"); ("norminette/rules/check_preprocessor_indent.py", "PREPROC_BAD_INDENT");
+   ("norminette/rules/check_preprocessor_indent.py", "PREPROC_NO_SPACE"); ("norminette/rules/check_preprocessor_indent.py", "CONSECUTIVE_WS");
    ("norminette/rules/check_empty_line.py", "EMPTY_LINE_FILE_START"); ("norminette/rules/check_empty_line.py", "NL_AFTER_VAR_DECL");
    ("norminette/rules/check_empty_line.py", "NL_AFTER_PREPROC"); ("norminette/rules/check_empty_line.py", "CONSECUTIVE_NEWLINES");
    ("norminette/rules/check_empty_line.py", "EMPTY_LINE_FUNCTION"); ("norminette/rules/check_empty_line.py", "EMPTY_LINE_EOF")].
@@ -65,7 +70,7 @@ Proof.
 Qed.
 
 Definition C01_checks_silent_statement : Prop :=
-  (* thirteen codes of checks proved silent as a whole can only come from those checks *)
+  (* nineteen codes of checks proved silent as a whole can only come from those checks *)
   forallb (fun fc => only_in (fst fc) (snd fc)) silent_check_codes = true /\
   (* K: every statement (remaining tokens `toks`) of a conforming text - any number of lines - is free of the forbidden kinds *)
   (forall ls, chain ls = true -> kinds_ok ls = true ->
@@ -128,6 +133,9 @@ Definition C01_checks_silent_statement : Prop :=
      comment_line_ok true (collect_line toks (skip_ws toks 0)) = true -> check_comment toks hist cls = []) /\
   (* CheckLineCount (whole check): it can never report - its guard compares the parent rule with a name no primary has *)
   (forall glob hist lines nl, forallb is_primary hist = true -> snd (line_count_run glob (parent_rule hist) lines nl) = []) /\
+  (* CheckPreprocessorIndent (whole check): at global scope, `#` in column 1, no tab before the directive name, the name at the
+     expected indentation (preproc.indent = pindent: view hypothesis), one space before the argument - ppi_line_ok *)
+  (forall toks pindent, ppi_line_ok toks pindent = true -> check_preproc_indent toks true pindent = Ok []) /\
   (* CheckUtypeDeclaration (translated part), in a header *)
   (forall toks scope ftype v, str_eqb ftype (s ".c") = false -> str_in (v_scope_name v) [s "GlobalScope"; s "UserDefinedType"] = true ->
      check_utype_forbidden toks scope ftype v = Ok ([], v)).
@@ -142,7 +150,7 @@ Proof.
   split; [exact line_indent_lbrace_silent|]. split; [exact expression_statement_silent|]. split; [exact spacing_silent|].
   split; [exact control_statement_silent|]. split; [exact traced_silent|].
   split; [exact identifier_name_silent|]. split; [exact comment_silent_no_comments|]. split; [exact comment_silent|].
-  split; [exact line_count_silent|]. exact utype_silent_in_header.
+  split; [exact line_count_silent|]. split; [exact preproc_indent_silent|]. exact utype_silent_in_header.
 Qed.
 
 Definition C01_partial_K_statement : Prop :=
